@@ -49,6 +49,8 @@ def session(rng):
         if r < 6:
             parent = rng.choice(["KM", "KM", "KM", "KX", "KX", "KXL", "KME", "KMF", "KMS", "KM3", "KA", "KXE"] + minted[-2:])
             ch = rng.choice([chan(rng), chan(rng, wild=True), b"a/#/", b"a/b/#/", b"#/", b"a/b", b"", b"a//b/", b"+/", b"a/+/#/",
+                             # levels that merely CONTAIN a wildcard character are ordinary levels for the key target
+                             b"a/b#/", b"x#/", b"a/#b/", b"a/b+/", b"a/+b/x/", b"a/##/", b"a/b#/#/",
                              b"/".join([b"x"] * rng.choice([22, 23, 24])) + b"/"])
             ttl = rng.choice([0, 0, 600, 3600, -600, 2147483647, -2147483648])
             name = "N%d" % i
@@ -57,7 +59,7 @@ def session(rng):
         elif r == 6:
             # the minting function called directly (HTTP keygen page): no request handler in front of it
             parent = rng.choice(["KM", "KM", "KME", "KME", "KMF", "KMS", "KM3", "KA", "KX", "KXE"] + minted[-1:])
-            ch = rng.choice([chan(rng), b"a/#/", b"#/", b"a/b", b"", b"a/+/"])
+            ch = rng.choice([chan(rng), b"a/#/", b"#/", b"a/b", b"", b"a/+/", b"a/b#/", b"x#/", b"a/+b/"])
             exp = rng.choice([0, 0, s.now + 600, s.now - 600, s.now + 86400 * 365])
             name = "N%d" % i
             s.ops.append("ckey %s %s %d %d %s" % (parent, hx(ch), rng.choice([R, R | W, R | W | S | L | P, 255, 1, R | E, 0]), exp, name))
